@@ -449,6 +449,9 @@ def execute(scn):
     if set(pert.get('models') or []) & deleted_later:
         must = False        # mutations of a model deleted in the same
         #                     batch are legitimately discarded
+    if pert.get('kind') == 'strip_initial' and feats.get('merged_initials'):
+        must = False        # the optimiser merges the mutation with another
+        #                     one on the same field that carries the value
     mk = pert.get('marker')
     if mk:
         import json as _json
